@@ -44,6 +44,8 @@ class Stochastic(BigSMILESbase):
             raise RuntimeError("Stochastic object '" + self._raw_text + "' does not end with '}'.")
 
         middle_text = self._raw_text[1 : self._raw_text.rfind("}")]
+        if middle_text.count("[") != middle_text.count("]"):
+            raise RuntimeError(f"Stochastic object {middle_text} has unbalanced brackets.")
         if middle_text[middle_text.find("]") + 1] == "}":
             raise RuntimeError(
                 f"Empty stochastic object {middle_text} that have only a single terminal bond descriptor are not supported."
